@@ -69,6 +69,7 @@ func (r *run) genesis() {
 		if res != "ok" {
 			r.out.Violate("genesis round trip: ExportGenesis + InitGenesis into an empty erc20 store failed: " + res)
 		} else if preIdx != postIdx {
+			r.tainted = true
 			r.out.Violate("genesis round trip: the erc20 store differs after ExportGenesis + InitGenesis into an empty store (pairs / denom index / contract index / alias index): before [" + preIdx + "] after [" + postIdx + "]")
 		}
 	}})
